@@ -214,7 +214,7 @@ def gen_build(tape):
         out = ("%s.cpp" % mod) if out_rel else "%s/%s.cpp" % (build, mod)
         sc["tasks"].append({
             "name": "py%d-main" % j, "kind": "py-main", "mode": tape.weighted([3, 1], "mode"),
-            "cwd": build, "locale": "utf-8",
+            "cwd": build, "locale": tape.wpick([("utf-8", 6), ("ascii", 1), ("latin-1", 1)], "locale"),
             "argv": ["pybind_wrap.py", "--src", ";".join([main_path] + subs), "--out", out] + common,
             "targets": ["%s/%s.cpp" % (build, mod)], "srcs": [main_path], "tpl": tpl_path, "xml": xml_arg,
         })
@@ -224,7 +224,7 @@ def gen_build(tape):
             cwd = src if tape.bool(0.15, "sub-cwd-src") else build
             sc["tasks"].append({
                 "name": "py%d-sub-%s" % (j, stem), "kind": "py-sub", "mode": tape.weighted([3, 1], "mode"),
-                "cwd": cwd, "locale": "utf-8",
+                "cwd": cwd, "locale": tape.wpick([("utf-8", 6), ("ascii", 1), ("latin-1", 1)], "locale"),
                 "argv": ["pybind_wrap.py", "--src", p, "--out", stem + ".cpp"] + common + ["--is_submodule"],
                 "targets": ["%s/%s.cpp" % (cwd, stem)], "srcs": [p], "tpl": tpl_path, "xml": xml_arg,
             })
@@ -568,8 +568,8 @@ def run_build(tape, ctx):
                 w.probe("cwd_is_source_dir")
         if s.get("relative_inputs"):
             w.probe("inputs_named_relative_to_cwd")
-        if s["kind"] == "ml" and s["locale"] == "ascii" and \
-                any(any(b > 127 for b in sc["inputs"][p]) for p in s["srcs"]):
+        if s["locale"] == "ascii" and \
+                any(any(b > 127 for b in sc["inputs"][p]) for p in s["srcs"] + ([s["tpl"]] if s.get("tpl") else [])):
             w.probe("ascii_locale_nonascii_input")
     if len({s.get("outdir") for s in sc["tasks"] if s["kind"] == "ml"}) == 1 and \
             sum(1 for s in sc["tasks"] if s["kind"] == "ml") == 2:
